@@ -152,6 +152,7 @@ type tables struct {
 	xmlTags                 [][3]string
 	nameOrder               []string
 	supportGuard            string
+	supportProbes           []bool
 	formatConsts            []string
 	multiReaders, firstRead []pair
 	formatFlags             []pair
@@ -278,6 +279,28 @@ func extract(repo string) (*tables, error) {
 			}
 			if ce, ok := be.X.(*ast.CallExpr); ok && exprStr(ce.Fun) == "len" && len(ce.Args) == 1 {
 				t.supportGuard = "len(" + exprStr(ce.Args[0]) + ") " + be.Op.String() + " " + exprStr(be.Y)
+				// the comparison evaluated on probes len = 0, 1, 2, 3: an equivalent spelling (>= 1, != 0) gives the same row
+				if lit, err := strconv.Atoi(exprStr(be.Y)); err == nil {
+					t.supportProbes = nil
+					for n := 0; n <= 3; n++ {
+						var v bool
+						switch be.Op {
+						case token.GTR:
+							v = n > lit
+						case token.GEQ:
+							v = n >= lit
+						case token.NEQ:
+							v = n != lit
+						case token.EQL:
+							v = n == lit
+						case token.LSS:
+							v = n < lit
+						case token.LEQ:
+							v = n <= lit
+						}
+						t.supportProbes = append(t.supportProbes, v)
+					}
+				}
 			}
 			return true
 		})
@@ -523,6 +546,11 @@ func GenTables(repo, out string) error {
 	w("io/phyloxml: struct, field, value of its `xml` tag", "xmlTags", "List (String × String × String)", "["+strings.Join(tags, ",\n   ")+"]")
 	w("cladeToTree: the if / else-if chain that names the node: `condition => argument of SetName`", "cladeNameOrder", "List String", leanStrs(t.nameOrder))
 	w("cladeToTree: the guard around SetSupport", "supportGuard", "String", leanStr(t.supportGuard))
+	var pr []string
+	for _, v := range t.supportProbes {
+		pr = append(pr, strconv.FormatBool(v))
+	}
+	w("that guard evaluated for len = 0, 1, 2, 3 (empty when it is not a comparison with an integer literal)", "supportGuardProbes", "List Bool", "["+strings.Join(pr, ", ")+"]")
 	w("io/utils/readtrees.go: the constants of the const block, in order", "formatConsts", "List String", leanStrs(t.formatConsts))
 	w("ReadMultiTrees: `switch format`: case, first parser entry called in it", "multiReaders", "List (String × String)", leanPairs(t.multiReaders))
 	w("ReadTreeReader: `switch format`: case, first parser entry called in it", "firstReaders", "List (String × String)", leanPairs(t.firstRead))
